@@ -436,6 +436,16 @@ fn c12(tier: &str) -> Vec<String> {
         for cap in [3, 6] {
             v.push(format!("mutex:sink=spy:q=1:via=sink:cap={}:prog={}", cap, prog));
         }
+        // through the client, refusals reported as WouldBlock (a non-blocking socket under back-pressure)
+        for cap in [7, 14] {
+            v.push(format!("mutex:sink=spy:q=1:wb=1:via=client:cap={}:prog={}", cap, prog));
+        }
+    }
+    // one client -> queuing sink -> buffered sink, flush racing the worker: order and conservation
+    for prog in ["EEF", "EEEF", "EFEF", "EEFEF"] {
+        for cap in [6, 16] {
+            v.push(format!("qflush:cap={}:prog={}:P={}", cap, prog, if th { 4 } else { 3 }));
+        }
     }
     v
 }
